@@ -667,7 +667,11 @@ def mutate_case(R, r, t, d, e, obj, view, cls, cache, buf, ops, exp, cctx, sx):
                 shape = [int(q) for q in nav(obj, path[:k])._shape]
             except Exception:
                 continue
-            idx[j] = r.choice([-1, shape[j], shape[j] + 3, -shape[j] - 1])
+            if r.random() < 0.3:
+                idx = idx + [r.choice([0, 0, 1, 5])]          # more coordinates than the array has axes: no such element
+                R.tags["op.badidx.too-many-coordinates"] += 1
+            else:
+                idx[j] = r.choice([-1, shape[j], shape[j] + 3, -shape[j] - 1])
             p2 = path[:k] + (("i", tuple(idx)),)
             before = image(buf)
             try:
@@ -682,6 +686,23 @@ def mutate_case(R, r, t, d, e, obj, view, cls, cache, buf, ops, exp, cctx, sx):
             R.tags["op.badidx"] += 1
             if image(buf) != before:
                 R.fail("C11:bad-index-side-effect", f"{sx[:200]}: refused index {tuple(idx)} changed the buffer", cctx)
+            if st[0] == "scalar" and len(p2) == len(path):
+                # the same index as an ASSIGNMENT target: must raise and leave every byte as it was
+                ndv, _ne = T.val(st, r)
+                vsb, argb = vsexp(st, ndv, cache, "py")
+                try:
+                    nav_set(h, p2, argb)
+                    resb = "ok"
+                    R.fail("C11:bad-index-assignment-accepted", f"{sx[:200]}: assigning to index {tuple(idx)} of an array of shape {shape} "
+                           f"through the {hname} succeeds", dict(cctx, path=pstr(p2)))
+                except Exception as ex:
+                    resb = "err " + exc_name(ex)
+                ops.append(f"set h {pstr(p2)} {vsb}")
+                exp.append(f"{resb} cap {buf.capacity} mem {image(buf).hex()}")
+                R.tags["op.badidx.set"] += 1
+                if image(buf) != before:
+                    R.fail("C11:bad-index-side-effect", f"{sx[:200]}: the refused assignment to index {tuple(idx)} changed the buffer", cctx)
+                    break
         else:
             if st[0] in ("ref", "uref"):
                 continue
